@@ -76,6 +76,12 @@ def r1(I):
     I.check('burn_fee_equal', smt.Eq(sim.get('burn_fee_amount'), pre.supply['uB'] - b.supply['uB']))
     x2, y2 = reserves_of(get_pool(I, 'p1'))
     I.check('swap_and_extra_fee_stay_in_pool', smt.Eq(y - y2, sim.get('return_amount') + sim.get('protocol_fee_amount') + sim.get('burn_fee_amount')))
+    # the amounts the Swap itself reports (its response attributes) are the quoted ones, fee by fee
+    for fld in ('return_amount', 'slippage_amount', 'swap_fee_amount', 'protocol_fee_amount', 'burn_fee_amount', 'extra_fees_amount'):
+        rep = response_attr(resp, fld)
+        I.observe('attr:' + fld, rep)
+        I.observe('prevq:' + fld, sim.get(fld))
+        I.check('reported_%s_equals_quote' % fld, rep is not None and smt.Eq(rep, sim.get(fld)))
 
 
 ROUTE_PRESETS = [
